@@ -122,7 +122,7 @@ pub proof fn lemma_run_to_lands(n: Nfa, v0: NfaV, off: int, cls: ClsF, p: VPath)
                 let ty = StateID(y as u32);
                 lemma_view_tr_edge(n, v0, off, cls, y0, c, ty);
                 let cc = choose|cc: CharClassID| #[trigger] tr_of(n, y0, cc, ty) && cls(cc, c);
-                assert(fires(g, t, cc, ty)) by { reveal(fires); assert((g.reach)(t, y0) && (g.tr)(y0, cc, ty)); }
+                assert(g_fires(g, t, cc, ty)) by { reveal(g_fires); assert((g.reach)(t, y0) && (g.tr)(y0, cc, ty)); }
                 assert(g_step(g, cls, t, c, y));
                 assert(w.drop_last() =~= w0 && w.last() == c);
                 assert(n_lands(n, cls, w, y));
@@ -149,8 +149,8 @@ pub proof fn lemma_lands_to_run(n: Nfa, v0: NfaV, off: int, cls: ClsF, w: Seq<ch
     if w.len() == 0 { lemma_lang_refl(v0, cls, t - off); assert(w =~= Seq::<char>::empty()); } else {
         let m = choose|m: int| g_lands(g, cls, w.drop_last(), m) && #[trigger] g_step(g, cls, m, w.last(), t);
         lemma_lands_to_run(n, v0, off, cls, w.drop_last(), m);
-        let (cc, tg) = choose|cc: CharClassID, tg: StateID| #[trigger] fires(g, m, cc, tg) && cls(cc, w.last()) && tg.0 == t;
-        reveal(fires);
+        let (cc, tg) = choose|cc: CharClassID, tg: StateID| #[trigger] g_fires(g, m, cc, tg) && cls(cc, w.last()) && tg.0 == t;
+        reveal(g_fires);
         let s = choose|s: int| (g.reach)(m, s) && #[trigger] (g.tr)(s, cc, tg);
         let k = choose|k: nat| eps_path(n, m, s, k);
         lemma_eps_reach_run(n, v0, off, cls, m, s, k);
@@ -248,17 +248,17 @@ pub proof fn lemma_mp_step0(m: MultiPatternNfa, cls: ClsF, c: char, t: int)
     requires mp_wf(m)
     ensures g_step(g_mp(m), cls, 0, c, t) <==> exists|j: int| 0 <= j < mp_len(m) && #[trigger] g_step(g_nfa(m.nfas@[j]), cls, m.nfas@[j].start_state.0 as int, c, t)
 {
-    reveal(fires);
+    reveal(g_fires);
     let g = g_mp(m);
     if g_step(g, cls, 0, c, t) {
-        let (cc, tg) = choose|cc: CharClassID, tg: StateID| #[trigger] fires(g, 0, cc, tg) && cls(cc, c) && tg.0 == t;
+        let (cc, tg) = choose|cc: CharClassID, tg: StateID| #[trigger] g_fires(g, 0, cc, tg) && cls(cc, c) && tg.0 == t;
         let s = choose|s: int| (g.reach)(0, s) && #[trigger] (g.tr)(s, cc, tg);
         if s == 0 {
             let jj = choose|jj: int| 0 <= jj < mp_len(m) && jj < mp_len(m) && #[trigger] tr_of(m.nfas@[jj], m.nfas@[jj].start_state.0 as int, cc, tg);
             let nn = m.nfas@[jj];
             lemma_reach_refl(nn, nn.start_state.0 as int);
             assert((g_nfa(nn).reach)(nn.start_state.0 as int, nn.start_state.0 as int) && (g_nfa(nn).tr)(nn.start_state.0 as int, cc, tg));
-            assert(fires(g_nfa(nn), nn.start_state.0 as int, cc, tg));
+            assert(g_fires(g_nfa(nn), nn.start_state.0 as int, cc, tg));
             assert(g_step(g_nfa(nn), cls, nn.start_state.0 as int, c, t));
         } else {
             let j = choose|j: int| 0 <= j < mp_len(m) && j < mp_len(m) && eps_reach(#[trigger] m.nfas@[j], m.nfas@[j].start_state.0 as int, s);
@@ -268,7 +268,7 @@ pub proof fn lemma_mp_step0(m: MultiPatternNfa, cls: ClsF, c: char, t: int)
             let j2 = choose|j2: int| #[trigger] owner(m, s, j2) && tr_of(m.nfas@[j2], s, cc, tg);
             lemma_owner_unique(m, s, j, j2);
             assert((g_nfa(nn).reach)(nn.start_state.0 as int, s) && (g_nfa(nn).tr)(s, cc, tg));
-            assert(fires(g_nfa(nn), nn.start_state.0 as int, cc, tg));
+            assert(g_fires(g_nfa(nn), nn.start_state.0 as int, cc, tg));
             assert(g_step(g_nfa(nn), cls, nn.start_state.0 as int, c, t));
         }
     }
@@ -276,7 +276,7 @@ pub proof fn lemma_mp_step0(m: MultiPatternNfa, cls: ClsF, c: char, t: int)
         let j = choose|j: int| 0 <= j < mp_len(m) && #[trigger] g_step(g_nfa(m.nfas@[j]), cls, m.nfas@[j].start_state.0 as int, c, t);
         let nn = m.nfas@[j];
         let gn = g_nfa(nn);
-        let (cc, tg) = choose|cc: CharClassID, tg: StateID| #[trigger] fires(gn, nn.start_state.0 as int, cc, tg) && cls(cc, c) && tg.0 == t;
+        let (cc, tg) = choose|cc: CharClassID, tg: StateID| #[trigger] g_fires(gn, nn.start_state.0 as int, cc, tg) && cls(cc, c) && tg.0 == t;
         let s = choose|s: int| (gn.reach)(nn.start_state.0 as int, s) && #[trigger] (gn.tr)(s, cc, tg);
         let k = choose|k: nat| eps_path(nn, nn.start_state.0 as int, s, k);
         lemma_reach_has_state(nn, nn.start_state.0 as int, s, k);
@@ -285,7 +285,7 @@ pub proof fn lemma_mp_step0(m: MultiPatternNfa, cls: ClsF, c: char, t: int)
         assert(mp_start_reach(m, mp_len(m), s));
         assert(owner(m, s, j) && tr_of(nn, s, cc, tg));
         assert((g.reach)(0, s) && (g.tr)(s, cc, tg));
-        assert(fires(g, 0, cc, tg));
+        assert(g_fires(g, 0, cc, tg));
     }
 }
 /// later steps stay inside the pattern NFA that owns the state
@@ -293,14 +293,14 @@ pub proof fn lemma_mp_step_owned(m: MultiPatternNfa, cls: ClsF, j: int, a: int, 
     requires mp_wf(m), owner(m, a, j)
     ensures g_step(g_mp(m), cls, a, c, t) <==> g_step(g_nfa(m.nfas@[j]), cls, a, c, t)
 {
-    reveal(fires);
+    reveal(g_fires);
     let g = g_mp(m);
     let nn = m.nfas@[j];
     let gn = g_nfa(nn);
     assert(n_off(nn) >= 1);
     assert(a != 0);
     if g_step(g, cls, a, c, t) {
-        let (cc, tg) = choose|cc: CharClassID, tg: StateID| #[trigger] fires(g, a, cc, tg) && cls(cc, c) && tg.0 == t;
+        let (cc, tg) = choose|cc: CharClassID, tg: StateID| #[trigger] g_fires(g, a, cc, tg) && cls(cc, c) && tg.0 == t;
         let s = choose|s: int| (g.reach)(a, s) && #[trigger] (g.tr)(s, cc, tg);
         let j1 = choose|j1: int| #[trigger] owner(m, a, j1) && eps_reach(m.nfas@[j1], a, s);
         lemma_owner_unique(m, a, j, j1);
@@ -310,10 +310,10 @@ pub proof fn lemma_mp_step_owned(m: MultiPatternNfa, cls: ClsF, j: int, a: int, 
         let j2 = choose|j2: int| #[trigger] owner(m, s, j2) && tr_of(m.nfas@[j2], s, cc, tg);
         lemma_owner_unique(m, s, j, j2);
         assert((gn.reach)(a, s) && (gn.tr)(s, cc, tg));
-        assert(fires(gn, a, cc, tg));
+        assert(g_fires(gn, a, cc, tg));
     }
     if g_step(gn, cls, a, c, t) {
-        let (cc, tg) = choose|cc: CharClassID, tg: StateID| #[trigger] fires(gn, a, cc, tg) && cls(cc, c) && tg.0 == t;
+        let (cc, tg) = choose|cc: CharClassID, tg: StateID| #[trigger] g_fires(gn, a, cc, tg) && cls(cc, c) && tg.0 == t;
         let s = choose|s: int| (gn.reach)(a, s) && #[trigger] (gn.tr)(s, cc, tg);
         let k = choose|k: nat| eps_path(nn, a, s, k);
         lemma_reach_has_state(nn, a, s, k);
@@ -321,7 +321,7 @@ pub proof fn lemma_mp_step_owned(m: MultiPatternNfa, cls: ClsF, j: int, a: int, 
         assert(owner(m, a, j) && eps_reach(nn, a, s));
         assert(owner(m, s, j) && tr_of(nn, s, cc, tg));
         assert((g.reach)(a, s) && (g.tr)(s, cc, tg));
-        assert(fires(g, a, cc, tg));
+        assert(g_fires(g, a, cc, tg));
     }
 }
 pub proof fn lemma_mp_lands(m: MultiPatternNfa, cls: ClsF, w: Seq<char>, t: int)
